@@ -5,6 +5,8 @@
 -/
 import Bridge.Abs
 import PtaProofs.Lemmas.Builders
+import Bridge.BuilderCalls
+import PtaProofs.Lemmas.LArchCalls
 namespace Pta.C16
 open Pta PtaSpec
 
@@ -98,5 +100,122 @@ example : runLArch [.layer "a".toList, .containingModules [], .containingModules
     = .ok [("a".toList, [.name "x".toList]), ("b".toList, [])] := by decide
 /-- (a) stays a don't-care: a regex textually equal to a module name given elsewhere -/
 example : classifyLArch [.layer "a".toList, .modules ["x".toList], .layer "b".toList, .regex "x".toList] = .unspecified := by decide
+
+/-! ### `containing_modules` with a `str` or a `list[str]` argument (`LArchCall`, `ModArg`, `runLArchCalls`)
+
+  "a module name can be assigned to at most one layer no matter whether it is passed as a string or inside a list":
+  the argument form is part of the model (`PtaModel/Layer.lean`: `ModArg.toList` transcribes
+  `modules_list = modules if isinstance(modules, list) else [modules]`), the specification call of either form is
+  `LCall.modules` with the names supplied (`Bridge/BuilderCalls.lean: callToLCall`). -/
+
+/-- the run on a history with both argument forms is the run on the list-form history (`LArchCall.toOp`), so every
+    theorem about `runLArch` above applies -/
+theorem calls_eq_list_form_run (cs : List LArchCall) : runLArchCalls cs = runLArch (cs.map LArchCall.toOp) :=
+  Pta.Hist.runLArchCalls_eq cs
+
+/-- string or list: two histories that become equal when every `containing_modules("m")` is written
+    `containing_modules(["m"])` (`LArchCall.listForm`) — i.e. that differ at any number of positions in the FORM of that
+    argument only — have the same result: the same accepted architecture, or the same error at the same call -/
+theorem string_form_eq_list_form (cs cs' : List LArchCall)
+    (h : cs.map LArchCall.listForm = cs'.map LArchCall.listForm) : runLArchCalls cs = runLArchCalls cs' :=
+  Pta.Hist.string_form_eq_list_form_lemma h
+
+/-- in particular: replacing every string argument by the one-element list changes nothing -/
+theorem string_form_eq_list_form_all (cs : List LArchCall) : runLArchCalls (cs.map LArchCall.listForm) = runLArchCalls cs :=
+  string_form_eq_list_form _ _ (by rw [List.map_map]; exact List.map_congr_left fun c _ => Pta.Hist.listForm_idem c)
+
+/-- … and replacing ONE string argument, anywhere in any history -/
+theorem string_form_eq_list_form_one (pre post : List LArchCall) (s : Str) :
+    runLArchCalls (pre ++ .containing (.str s) :: post) = runLArchCalls (pre ++ .containing (.list [s]) :: post) :=
+  string_form_eq_list_form _ _ (by simp [LArchCall.listForm])
+
+/-- refinement (`larch_refines`), for histories with both argument forms: the builder follows the specification
+    automaton on every history -/
+theorem larch_calls_refine (cs : List LArchCall) :
+    match classifyLArch (cs.map callToLCall) with
+    | .accepted t => ∃ a, runLArchCalls cs = .ok a ∧
+        a.idsPerLayer = t.closed ++ (match t.opened with | some n => [(n, [])] | none => [])
+    | .rejectedAt i => runLArchCalls cs = .error (.improperlyConfigured, i)
+    | .unspecified => True :=
+  Pta.Hist.larch_calls_refine_lemma cs
+
+/-- invariant (`larch_invariant`), for histories with both argument forms: layer names are unique, at most one layer
+    is pending, and no module identifier is listed in two different layers -/
+theorem larch_calls_invariant (cs : List LArchCall) (a : LArch) (h : runLArchCalls cs = .ok a) :
+    (a.map (·.1)).Nodup ∧ a.pending.length ≤ 1 ∧
+    ∀ l₁ ∈ a, ∀ l₂ ∈ a, ∀ f₁ ∈ l₁.2, ∀ f₂ ∈ l₂.2, f₁.isRegex = false → f₂.isRegex = false → f₁.id = f₂.id → l₁.1 = l₂.1 :=
+  Pta.Hist.larch_calls_invariant_lemma cs a h
+
+/-- a module passed to `containing_modules` twice, in whatever forms (`y`, `x`: a string or a list containing it):
+    EVERY history of the shape `pre, containing_modules(y), mid, containing_modules(x), rest` is rejected with a
+    configuration error — at the second of the two calls (index `pre.length + 1 + mid.length`) when the calls before it
+    were accepted, and earlier otherwise -/
+theorem module_in_one_layer (pre mid rest : List LArchCall) (y x : ModArg) (m : Str)
+    (hy : m ∈ y.toList) (hx : m ∈ x.toList) :
+    ∃ i, i ≤ pre.length + 1 + mid.length ∧
+      runLArchCalls (pre ++ .containing y :: mid ++ .containing x :: rest) = .error (.improperlyConfigured, i) ∧
+      ((∃ a, runLArchCalls (pre ++ .containing y :: mid) = .ok a) → i = pre.length + 1 + mid.length) :=
+  Pta.Hist.module_twice_calls pre mid rest y x m hy hx
+
+/-- the string form: after an accepted history in which module `m` was passed as a STRING to one layer, passing `m`
+    again — as a string or inside a list, to that layer or (after `layer(B)` in `mid`) to another one — is rejected AT that
+    later call, whatever follows -/
+theorem string_form_one_layer (pre mid rest : List LArchCall) (m : Str) (x : ModArg) (hx : m ∈ x.toList) (a : LArch)
+    (hacc : runLArchCalls (pre ++ .containing (.str m) :: mid) = .ok a) :
+    runLArchCalls (pre ++ .containing (.str m) :: mid ++ .containing x :: rest)
+      = .error (.improperlyConfigured, pre.length + 1 + mid.length) := by
+  obtain ⟨i, _, hrun, hi⟩ := module_in_one_layer pre mid rest (.str m) x m (by simp [ModArg.toList]) hx
+  rw [hrun, hi ⟨a, hacc⟩]
+
+/-- so no accepted history passes a module as a string and again later, in either form -/
+theorem string_form_never_twice (pre mid rest : List LArchCall) (m : Str) (x : ModArg) (hx : m ∈ x.toList) (a : LArch) :
+    runLArchCalls (pre ++ .containing (.str m) :: mid ++ .containing x :: rest) ≠ .ok a := by
+  obtain ⟨i, _, hrun, _⟩ := module_in_one_layer pre mid rest (.str m) x m (by simp [ModArg.toList]) hx
+  rw [hrun]
+  intro h
+  cases h
+
+/-! the defect F-C16 (repaired by fix 1df0d8a), on the model of the pre-repair code `LArch.stepCharset`
+    (`module_set = set(modules)`: for a `str` argument the set of its characters) -/
+
+/-- before the repair `layer A, containing_modules("mod"), layer B, containing_modules("mod")` was ACCEPTED: two layers own
+    `mod` -/
+theorem charset_counterexample_accepts :
+    runLArchCharset [.op (.layer "A".toList), .containing (.str "mod".toList), .op (.layer "B".toList), .containing (.str "mod".toList)]
+      = .ok [("A".toList, [.name "mod".toList]), ("B".toList, [.name "mod".toList])] := by decide
+
+/-- … and `layer A, containing_modules(["m"]), layer B, containing_modules("mod")` was REJECTED (at call 3) although no
+    module is shared: the character `m` of `"mod"` is the module `m` of layer A -/
+theorem charset_counterexample_rejects :
+    runLArchCharset [.op (.layer "A".toList), .containing (.list ["m".toList]), .op (.layer "B".toList), .containing (.str "mod".toList)]
+      = .error (.improperlyConfigured, 3) := by decide
+
+/-- the library as it is, on the same two histories: rejected at call 3 (hypotheses of `string_form_one_layer` with
+    `pre = [layer A]`, `mid = [layer B]`), and accepted -/
+example : runLArchCalls [.op (.layer "A".toList), .containing (.str "mod".toList), .op (.layer "B".toList), .containing (.str "mod".toList)]
+    = .error (.improperlyConfigured, 3) := by decide
+example : runLArchCalls [.op (.layer "A".toList), .containing (.list ["m".toList]), .op (.layer "B".toList), .containing (.str "mod".toList)]
+    = .ok [("A".toList, [.name "m".toList]), ("B".toList, [.name "mod".toList])] := by decide
+/-- with list arguments only the pre-repair code and the repaired code agree (the defect needs a `str` argument) -/
+example : runLArchCharset [.op (.layer "A".toList), .containing (.list ["mod".toList]), .op (.layer "B".toList), .containing (.list ["mod".toList])]
+    = .error (.improperlyConfigured, 3) := by decide
+
+/-! non-vacuity of `string_form_one_layer` / `module_in_one_layer`: an accepted prefix `layer A, "mod", layer B`, then
+    `mod` inside a list -/
+example : runLArchCalls ([.op (.layer "A".toList)] ++ .containing (.str "mod".toList) :: [.op (.layer "B".toList)])
+    = .ok [("A".toList, [.name "mod".toList]), ("B".toList, [])] := by decide
+example : "mod".toList ∈ (ModArg.list ["x".toList, "mod".toList]).toList := by decide
+example : runLArchCalls ([.op (.layer "A".toList)] ++ .containing (.str "mod".toList) :: [.op (.layer "B".toList)] ++
+      .containing (.list ["x".toList, "mod".toList]) :: [.op (.layer "C".toList)])
+    = .error (.improperlyConfigured, 3) := by decide
+/-- `string_form_eq_list_form`: histories that differ in the form only -/
+example : ([.op (.layer "A".toList), .containing (.str "mod".toList)] : List LArchCall).map LArchCall.listForm
+    = ([.op (.layer "A".toList), .containing (.list ["mod".toList])] : List LArchCall).map LArchCall.listForm := by decide
+/-- `larch_calls_refine`: the specification automaton on a history with both forms -/
+example : classifyLArch ([.op (.layer "A".toList), .containing (.str "mod".toList), .op (.layer "B".toList),
+      .containing (.list ["x".toList, "y".toList])].map callToLCall)
+    = .accepted ⟨[("A".toList, ["mod".toList]), ("B".toList, ["x".toList, "y".toList])], none⟩ := by decide
+example : classifyLArch ([.op (.layer "A".toList), .containing (.str "mod".toList), .op (.layer "B".toList),
+      .containing (.list ["x".toList, "mod".toList])].map callToLCall) = .rejectedAt 3 := by decide
 
 end Pta.C16
